@@ -44,7 +44,7 @@ REQUIRED_THEOREMS = [
     # Props/C15b.lean (theorem-gap round): values of field/field arithmetic, of negation, of copied collections
     "binop_field_values", "inplace_field_values", "negate_field_values", "copy_collection_reads_members",
     "copy_collection_member_reads", "binop_collection_scalar_values", "binop_collection_values",
-    "negate_collection_values",
+    "negate_collection_values", "binop_into_second_collection_values",
 ]
 EXTRA_PROP_FILES = ["C15b"]
 # floors on what a quick run must have explored (run.py): in-place operations on list objects of the caller
